@@ -6,6 +6,7 @@ func init() {
 		Harness: hb(),
 		Entries: []EntrySpec{
 			{Pkg: "biscuit", Func: "VerifC08Siblings", Quick: p(), Thorough: p(), Covers: []string{"done", "two-children"}},
+			{Pkg: "biscuit", Func: "VerifC08BuilderReuse", Quick: p(), Thorough: p(), Covers: []string{"reused"}},
 			{Pkg: "biscuit", Func: "VerifC08Envelope", Quick: p("maxblocks", 4), Thorough: p("maxblocks", 6), Covers: []string{"done"}},
 		},
 		Assumptions: append([]string{
